@@ -375,6 +375,36 @@ def call_graphs(k, orders="all"):
     return out
 
 
+# ---------------------------------------------------------------- F11
+def f11(where, caller, callee):
+    """a by-reference call that sits in a NON-ENTRY block of its caller (conditional arm, loop body), the variable
+    handed over being written and read back just once before (store directly followed by its only direct load)"""
+    if callee == "read":
+        g_body = ["Seq", ["Return", ["Add", ["Mul", L("v"), I(10)], L("k")]]]
+    else:
+        g_body = ["Seq", ["Store", "v", ["Add", ["Mul", L("v"), I(2)], L("k")]], ["Return", ["Add", L("v"), I(1)]]]
+    g = {"params": [["v", "ref"], ["k", "val"]], "ret": "u", "body": g_body, "locals": [], "init_locals": False}
+    var = "x" if caller == "main" else "t"
+    n = N if caller == "main" else L("n")
+    call = ["Call", "g", ["Ref", var], n]
+    out_ = (lambda e: ["GPut", ["Bytes", "72"], e]) if caller == "main" else (lambda e: ["Return", e])
+    guard = ["Gt", L(var), I(3)]
+    if where == "if":
+        steps = [["Store", var, ["Add", n, I(5)]], ["If", guard, ["Seq", out_(call)]]]
+    elif where == "else":
+        steps = [["Store", var, ["Add", n, I(5)]], ["If", ["Lt", L(var), I(3)], ["Seq", ["TickS", 1]], ["Seq", out_(call)]]]
+    else:
+        steps = [["Store", "c", I(0)], ["Store", var, ["Add", n, I(5)]],
+                 ["While", ["Lt", L("c"), I(2)], ["Seq", ["Store", "c", ["Add", L("c"), I(1)]],
+                                                 ["GPut", ["Bytes", "72"], call] if caller == "main" else ["GPut", ["Bytes", "75"], call]]]]
+    if caller == "main":
+        main = ["Seq"] + steps + [["TickS", 2], ["Int", 1]]
+        return prog(main, {"g": g}, {"x": "u", "c": "u"})
+    h = {"params": [["n", "val"]], "ret": "u", "body": ["Seq"] + steps + [["Return", I(0)]], "locals": ["t", "c"], "init_locals": False}
+    main = ["Seq", ["GPut", ["Bytes", "72"], ["Add", I(40), ["Call", "h", N]]], ["TickS", 2], ["Int", 1]]
+    return prog(main, {"g": g, "h": h})
+
+
 F5_SITES = ["stmt", "left", "right", "nested_arg", "arg_order", "arg_order3", "bytes_left", "bytes_right", "two_calls",
             "in_cond", "in_loop", "value_top"]
 F4_POS = ["first", "in_if", "in_ifelse", "in_loop", "in_for", "in_cond", "last"]
@@ -413,6 +443,10 @@ def programs(tier="quick"):
         for keep in ("param", "local"):
             for mixed in (False, True):
                 out.append((k, f8(k, keep, mixed), [{"args": [bytes([n]), b"\x00"]} for n in (0, 1, k, k + 1, 2 * k + 1)]))
+    for where in ("if", "else", "loop"):
+        for caller in ("main", "sub"):
+            for callee in ("read", "rmw"):
+                out.append((3, f11(where, caller, callee), _inputs((0, 1, 2, 3))))
     for style in ("helper", "self"):
         for when in ("before", "after"):
             for nl in range(0, max_loc + 1):
